@@ -64,11 +64,11 @@ const (
 type impEvent struct {
 	kind   impEventKind
 	pos    token.Pos
-	imp    string    // evEnsure: constant import path ("" if non-constant)
-	ext    *ExtInfo  // evSet
-	extSrc string    // evSet: expression text
-	callee *impFunc  // evCall / evFlit
-	equiv  bool      // evCall/evEnsure: on a file-equivalent visitor
+	imp    string   // evEnsure: constant import path ("" if non-constant)
+	ext    *ExtInfo // evSet
+	extSrc string   // evSet: expression text
+	callee *impFunc // evCall / evFlit
+	equiv  bool     // evCall/evEnsure: on a file-equivalent visitor
 	node   ast.Node
 }
 
@@ -81,7 +81,7 @@ type impFunc struct {
 	events map[*cfg.Block][]*impEvent
 	equiv  map[types.Object]bool
 	files  map[types.Object]bool // parameters of type *fileContext: "the" output file of this function
-	hasErr bool // has an error result
+	hasErr bool                  // has an error result
 
 	summary  map[string]bool // must-ensured on every non-error path entry→exit
 	context  map[string]bool // intersection over call sites; nil = TOP (no call site seen yet)
